@@ -71,6 +71,7 @@ def check(repo, tier="quick"):
     res.rule("C07.d", "automatic picture numbers: same wrap mask as the validator, restart per sequence, incremented for pictures and for fragments only when fragment_slice_count == 0")
     res.rule("C07.f", "per-sequence scope: in every autofill routine, each local that is rebound inside the loop over sequences is definitely (re)assigned within one iteration of that loop before it is read -- no version, picture number or flag is carried from one sequence into the next")
     res.rule("C07.g", "history independence: the autofill module keeps no state between calls; no swapped same-named arguments")
+    res.rule("C07.h", "documented defaults: every read of a field of a bitstream dictionary in the autofill routines is get_auto(d, key, T) with T declaring key, or d.get(key, default) whose default is an empty container (absent sub-structure), AUTO (absence test), or vc2_default_values_with_auto[T][key] for the same key; a bare d.get('parse_code') is compared with picture/padding parse codes only")
     res.rule("C07.e", "parse offsets: only recorded (AUTO) positions are patched after serialisation; next offset 0 for the last data unit, previous 0 for the first; distances from the recorded _offset values")
 
     m = repo.mod(AF)
@@ -83,6 +84,8 @@ def check(repo, tier="quick"):
     rule_d(repo, res, m)
     rule_e(repo, res, m)
     rule_f(repo, res, m)
+    rule_h(repo, res, m)
+    res.floor("C07.h", 40)
     from .. import globals_state, lints
 
     globals_state.rule(repo, res, "C07.g", ["bitstream.vc2_autofill"], what="the values filled in for one stream")
@@ -130,6 +133,16 @@ def rule_a(repo, res, m):
                         trues = [x for x in ast.walk(fn) if isinstance(x, ast.Assign) and dotted(x.targets[0]) == f and isinstance(x.value, ast.Constant) and x.value.value is True]
                         good = bool(trues) and all(any(is_auto_test(t2) is not None and p2 and is_auto_test(t2)[1] == "major_version" for t2, p2 in guards_of(x, fn)) for x in trues)
                         others = [x for x in ast.walk(fn) if isinstance(x, ast.Assign) and dotted(x.targets[0]) == f and not (isinstance(x.value, ast.Constant) and isinstance(x.value.value, bool))]
+                        # ... and the flag describes the *most recent* sequence header: the same test's other arm clears it
+                        current = bool(trues)
+                        for x in trues:
+                            owner = None
+                            for i in ast.walk(fn):
+                                if isinstance(i, ast.If) and x in i.body and is_auto_test(i.test) is not None and is_auto_test(i.test)[1] == "major_version":
+                                    owner = i
+                            current = current and owner is not None and any(isinstance(y, ast.Assign) and dotted(y.targets[0]) == f and isinstance(y.value, ast.Constant) and y.value.value is False for y in owner.orelse)
+                        if good and not others:
+                            res.check(current, "C07.a", "%s:licence-flag-current:%s" % (name, f), where, "the flag %s that licenses deleting explicitly supplied extended transform parameters is set under the major_version AUTO test but not cleared in that test's other arm: after one automatic header it stays set for later headers with an explicit version" % f, by="`%s = False` in the else arm of the AUTO test" % f)
                         if good and not others:
                             ok = True
                             why = "licensed by flag %s, set True only when major_version was AUTO" % f
@@ -413,3 +426,44 @@ def rule_f(repo, res, m):
                     res.bad("C07.f", key, where, "local %r is read at line %d with a value that may come from the previous sequence (or from before the loop over sequences): it is not definitely assigned within the current sequence's iteration before that read" % (v, getattr(carried[v], "lineno", 0)))
                 else:
                     res.ok("C07.f", key, where, by="definitely assigned within the iteration before every read")
+
+
+def rule_h(repo, res, m):
+    from ..tables import fixeddicts
+
+    decl = {}
+    for fd in fixeddicts(repo):
+        if fd.var:
+            decl.setdefault(fd.var, set()).update(fd.entries)
+    seen = {}
+
+    def nth(k):
+        seen[k] = seen.get(k, 0) + 1
+        return "%s#%d" % (k, seen[k])
+
+    for name in AUTOFILLERS[:3] + ("get_transform_parameters",):
+        fn = m.funcs.get(name)
+        if fn is None:
+            raise AnalysisError("anchor vanished: %s:%s" % (AF, name))
+        where = "%s:%s" % (m.rel, name)
+        for c in sorted((x for x in ast.walk(fn) if isinstance(x, ast.Call)), key=lambda x: (x.lineno, x.col_offset)):
+            if not isinstance(c, ast.Call):
+                continue
+            if dotted(c.func) == "get_auto" and len(c.args) == 3:
+                key, T = const_str(c.args[1]), dotted(c.args[2])
+                ok = key is not None and T in decl and key in decl[T]
+                res.check(ok, "C07.h", nth("%s:get_auto:%s.%s" % (name, T, key)), where, "get_auto(%s, %r, %s): %s does not declare %r, so the default looked up is not this field's" % (short(c.args[0], 30), key, T, T, key), by="%s declares %r" % (T, key))
+            elif isinstance(c.func, ast.Attribute) and c.func.attr == "get" and c.args and const_str(c.args[0]) is not None and not c.keywords:
+                key = const_str(c.args[0])
+                d = c.args[1] if len(c.args) > 1 else None
+                why = None
+                if d is None:
+                    if key == "parse_code":
+                        why = "bare get of parse_code (None matches no parse code; the documented default, end_of_sequence, is neither a picture nor padding/auxiliary data)"
+                elif isinstance(d, (ast.Dict, ast.List)) and not (d.keys if isinstance(d, ast.Dict) else d.elts):
+                    why = "empty container for an absent sub-structure"
+                elif dotted(d) == "AUTO":
+                    why = "AUTO (absence test)"
+                elif isinstance(d, ast.Subscript) and isinstance(d.value, ast.Subscript) and dotted(d.value.value) == "vc2_default_values_with_auto" and const_str(d.slice) == key and dotted(d.value.slice) in decl and key in decl[dotted(d.value.slice)]:
+                    why = "documented default of %s.%s" % (dotted(d.value.slice), key)
+                res.check(why is not None, "C07.h", nth("%s:get:%s" % (name, key)), where, "`%s` reads field %r with a default that is not the documented one (an omitted field must take its documented default; use get_auto or vc2_default_values_with_auto[T][%r])" % (short(c, 80), key, key), by=why or "")
